@@ -84,8 +84,36 @@ def _make_note(style, vals, pattern, line, track):
         n = pattern.data[line][track].clone()
         n.note, n.vel, n.module, n.ctl, n.val = note, vel, module, ctl, val
         return n
+    if style == 5:
+        # a Note object that lives (and has been used) in a pattern of ANOTHER project is moved here
+        src = _foreign_note(line, track)
+        src.note, src.vel, src.module, src.ctl, src.val = note, vel, module, ctl, val
+        return src
     other = Pattern(lines=1, tracks=1)
     return Note(note=note, vel=vel, module=module, ctl=ctl, val=val, pattern=other)
+
+
+_FOREIGN = {}
+
+
+def _foreign_note(line, track):
+    """Notes of a pattern attached to an unrelated project, whose project-aware accessors
+    have already been used there."""
+    if "pat" not in _FOREIGN:
+        fp = Project()
+        fp.new_module(M.Amplifier)
+        fp.new_module(M.Filter)
+        pat = Pattern(lines=64, tracks=16)
+        fp.attach_pattern(pat)
+        _FOREIGN["project"], _FOREIGN["pat"] = fp, pat
+    # a NEW Note object each time (a note handed over earlier now lives in the pattern under test
+    # and must not be touched again), placed into the foreign pattern and used there first
+    n = Note(pattern=_FOREIGN["pat"])
+    _FOREIGN["pat"].data[line % 64][track % 16] = n
+    n.module = 1
+    _ = n.project
+    _ = n.mod
+    return n
 
 
 class World:
@@ -386,7 +414,7 @@ def sweep_cases(lines, tracks, attached, dense=128):
         idxs = sorted({0, 1, 2, ncells // 3, ncells // 2, ncells - 2, ncells - 1})
     setup = {"k": "setup", "lines": lines, "tracks": tracks, "attached": attached, "nmods": 3, "fill": 7}
     for setter in ("fn", "gen"):
-        for style in (0, 1, 2, 3, 4):
+        for style in (0, 1, 2, 3, 4, 5):
             yield [setup, {"k": "bulk", "setter": setter, "plan": {"mode": "complete"}, "seed": 11, "style": style}]
         # a rotation (existing Note objects moved to other cells), then every kind of follow-up edit
         rot = {"k": "bulk", "setter": setter, "plan": {"mode": "complete"}, "seed": 41, "style": 4}
@@ -440,7 +468,7 @@ def generate(seed, i, tier="quick"):
                 plan["at"] = r.randrange(max(plan["subset"], 1))
             if r.random() < 0.2:
                 plan["dup"] = True
-        ops.append({"k": "bulk", "setter": setter, "plan": plan, "seed": r.randrange(1 << 30), "style": r.randrange(5), "observe": r.random() < 0.8})
+        ops.append({"k": "bulk", "setter": setter, "plan": plan, "seed": r.randrange(1 << 30), "style": r.randrange(6), "observe": r.random() < 0.8})
     return {"property": PROPERTY, "world": "bulk", "ops": ops}
 
 
